@@ -67,6 +67,17 @@ def _repr_stubs():
     APPLIED.append("str()/repr() of EncodedArray/EncodedRaggedArray with symbolic content returns a placeholder (exception message text outside the claim)")
 
 
+def _function_keyed_tables():
+    """tables keyed by NumPy function objects at import time also get the proxy's function objects as keys"""
+    import bionumpy.computation_graph as cg
+    from .proxy import symnp
+    for real_name in ("sum", "histogram"):
+        real = getattr(_np, real_name)
+        if real in cg.reductions_map:
+            cg.reductions_map[getattr(symnp, real_name)] = cg.reductions_map[real]
+    APPLIED.append("computation_graph.reductions_map also keyed by the proxy's sum/histogram function objects")
+
+
 def _npsarray():
     import bionumpy.encoded_array as ea
     import npstructures.mixin
@@ -163,6 +174,7 @@ def apply():
     _concretize_shapes()
     _message_formatting()
     _repr_stubs()
+    _function_keyed_tables()
     _npsarray()
     _text_entry()
     _reset_cached_tables()
